@@ -54,6 +54,9 @@ Definition run_zombie (c : cfg) (comm : bytes) (esrch : bool) : jv :=
   JL [ JL (map jv_res (run_ops c None (zombie_ops (view_zombie comm esrch))));
        JL (map jv_res (spec_zombie comm)) ].
 
+Definition run_gone (c : cfg) (denied esrch : bool) : jv :=
+  JL [ JL (map jv_res (run_ops c None (gone_ops denied esrch))); JL (map jv_res (spec_gone denied)) ].
+
 Definition run_hist (c : cfg) (r : kproc) : jv :=
   JL [ JL [JB (k_cmdline (p_cmd r)); k_exe_link r];
        JL (map jv_res (run_ops c None (hist_ops (view_proc r))));
